@@ -268,3 +268,10 @@ Example C02_site_sound_nonvacuous :
       ["/a.txt"; "/dir/"; "/dir"; "/secret.txt"; "/Casketfile/."]
   = [15; 1005; 301; 404; 404].
 Proof. vm_compute. reflexivity. Qed.
+
+(* ---- the executable spec the case files evaluate ----------------------------------------- *)
+(* [spec_ok] (hide list opened once, hidden directories and permitted names collected once per
+   case) is extensionally the reference statement [spec_ok_ref]: nothing was weakened for speed. *)
+Theorem C02_spec_ok_is_reference : forall s r o, spec_ok s r o = spec_ok_ref s r o.
+Proof. exact spec_ok_eq. Qed.
+Print Assumptions C02_spec_ok_is_reference.
